@@ -717,6 +717,10 @@ func StrList(xs []string) string { return lib.List(strs(xs, Str)) }
 func coqLabel(l Label) string {
 	return lib.App("Label", Str(l.Sub), Str(l.Pkg), Str(l.Name))
 }
+
+// CoqLabel prints a label as a term of Model/C08.v.
+func CoqLabel(l Label) string { return coqLabel(l) }
+
 func coqLabels(ls []Label) string {
 	return lib.List(strs(ls, coqLabel))
 }
